@@ -28,7 +28,9 @@ func (w *World) msgHeads(m *Msg) (string, string) {
 		es[i] = h
 	}
 	addr := "other"
-	if msg.Address == w.dbAddr {
+	if k := w.dbIndexOfAddr(msg.Address); k >= 0 && len(w.dbs) > 1 {
+		addr = fmt.Sprintf("db%d", k)
+	} else if msg.Address == w.dbAddr {
 		addr = "db"
 	}
 	return addr, w.names2(es)
@@ -41,12 +43,26 @@ func (w *World) waitPub(p int, from int, expect bool) {
 	}
 	deadline := time.Now().Add(2 * time.Second)
 	for {
+		found := false
 		for _, m := range w.net.Sent(from) {
 			if m.Kind == "pub" && m.From == p {
-				addr, heads := w.msgHeads(m)
-				w.printf("pub %d m%d topic=%s addr=%s heads=%s\n", p, m.Seq, w.topicName(m.Topic), addr, heads)
-				return
+				found = true
 			}
+		}
+		if found {
+			if len(w.dbs) > 1 {
+				time.Sleep(3 * time.Millisecond) // let cross-database publishes (if any) happen
+			}
+			for _, m := range w.net.Sent(from) {
+				if m.Kind == "pub" && m.From == p {
+					addr, heads := w.msgHeads(m)
+					w.printf("pub %d m%d topic=%s addr=%s heads=%s\n", p, m.Seq, w.topicName(m.Topic), addr, heads)
+					if len(w.dbs) <= 1 {
+						break
+					}
+				}
+			}
+			return
 		}
 		if time.Now().After(deadline) {
 			w.printf("pub %d none\n", p)
@@ -57,6 +73,9 @@ func (w *World) waitPub(p int, from int, expect bool) {
 }
 
 func (w *World) topicName(t string) string {
+	if k := w.dbIndexOfAddr(t); k >= 0 && len(w.dbs) > 1 {
+		return fmt.Sprintf("db%d", k)
+	}
 	if t == w.dbAddr {
 		return "db"
 	}
@@ -81,7 +100,7 @@ func barrierPayload(addr string) []byte {
 func (w *World) nthMsg(kind string, p, q, i int) *Msg {
 	var ms []*Msg
 	for _, m := range w.net.Sent(0) {
-		if m.Kind == kind && m.From == p && (kind == "pub" || m.To == q) {
+		if m.Kind == kind && m.From == p && ((kind == "pub" && m.Topic == w.dbAddr) || (kind != "pub" && m.To == q)) {
 			ms = append(ms, m)
 		}
 	}
